@@ -115,3 +115,18 @@ Proof.
   rewrite <- md_fold. rewrite <- H. reflexivity.
 Qed.
 Print Assumptions md_hash_any_schedule_eq_spec.
+
+(* Progress (the contract the in-order ring assumes of complete_job(), Mgr/Ring.v op_ok): a job
+   parked in lane l is handed back after at most as many flushes of its manager as there are busy
+   lanes; the invariant holds in between. *)
+Theorem flush_drains_any_lane :
+  forall (J St : Type) (init : J -> St) (units : J -> Z) (step : St -> Z -> St) (L : nat),
+  (1 <= L)%nat ->
+  (forall s, step s 0 = s) ->
+  (forall s a b, 0 <= a -> 0 <= b -> step (step s a) b = step s (a + b)) ->
+  forall n (o : ooo J St) l,
+  Inv1 J St init units step L o -> (l < L)%nat -> job o l <> None -> (L - length (unused o) <= n)%nat ->
+  exists k, (k <= n)%nat /\ job (flush_n J St step L k o) l = None /\
+            Inv1 J St init units step L (flush_n J St step L k o).
+Proof. intros J St init units step L HL H0 Ha. exact (flush_drains_lane J St init units step L HL Ha). Qed.
+Print Assumptions flush_drains_any_lane.
